@@ -164,7 +164,7 @@ def ensure_facts(configs, repo=None):
         lock.close()
 
 
-_GEN = re.compile(r"::<[^<>]*(?:<[^<>]*(?:<[^<>]*>[^<>]*)*>[^<>]*)*>")
+_GEN = re.compile(r"::<(?!impl )[^<>]*(?:<[^<>]*(?:<[^<>]*>[^<>]*)*>[^<>]*)*>")
 
 
 def norm_path(p):
